@@ -21,8 +21,9 @@ n == 3 * HL
 VARIABLES inst,      \* implementation: inst[k] = [cells: lane -> n cell codes, dir]      (k in 1..2, or absent)
           ref,       \* reference: ref[k] = [abs: lane -> seq of blocks, sq: lane -> Nat, dir]
           lastOut,   \* outputs of the last squeeze, implementation and reference
-          steps
-vars == <<inst, ref, lastOut, steps>>
+          steps,
+          last       \* label of the last action <<name, instance, batch>> (only used to export behaviours, leg G of C06)
+vars == <<inst, ref, lastOut, steps, last>>
 
 Lanes == 1..W
 Blocks == [1..HL -> Trit]
@@ -30,7 +31,7 @@ ZeroBlock == [i \in 1..HL |-> 0]
 Fresh == [cells |-> [j \in Lanes |-> [i \in 1..n |-> 3]], dir |-> "abs"]
 FreshRef == [abs |-> [j \in Lanes |-> <<>>], sq |-> [j \in Lanes |-> 0], dir |-> "abs"]
 
-Init == /\ inst = <<Fresh>> /\ ref = <<FreshRef>> /\ lastOut = <<>> /\ steps = 0
+Init == /\ inst = <<Fresh>> /\ ref = <<FreshRef>> /\ lastOut = <<>> /\ steps = 0 /\ last = <<"init", 0, <<>>>>
 
 \* --- implementation-shaped operations on one instance
 ImplAbsorb(c, batch) ==       \* batch: sequence (length 1..W) of blocks, one block each
@@ -58,19 +59,21 @@ Absorb(k) == /\ inst[k].dir = "abs"            \* absorbing after squeezing pani
              /\ \E bs \in 1..W : \E batch \in [1..bs -> Blocks] :
                   /\ inst' = [inst EXCEPT ![k] = ImplAbsorb(inst[k], batch)]
                   /\ ref' = [ref EXCEPT ![k] = RefAbsorb(ref[k], batch)]
+                  /\ last' = <<"absorb", k, batch>>
              /\ lastOut' = <<>>
 Squeeze(k) == LET a == ImplSqueeze(inst[k]) b == RefSqueeze(ref[k])
               IN /\ inst' = [inst EXCEPT ![k] = a[1]] /\ ref' = [ref EXCEPT ![k] = b[1]]
-                 /\ lastOut' = <<a[2], b[2]>>
-Reset(k) == inst' = [inst EXCEPT ![k] = Fresh] /\ ref' = [ref EXCEPT ![k] = FreshRef] /\ lastOut' = <<>>
+                 /\ lastOut' = <<a[2], b[2]>> /\ last' = <<"squeeze", k, <<>>>>
+Reset(k) == inst' = [inst EXCEPT ![k] = Fresh] /\ ref' = [ref EXCEPT ![k] = FreshRef] /\ lastOut' = <<>> /\ last' = <<"reset", k, <<>>>>
 Clone == /\ Len(inst) = 1
-         /\ inst' = Append(inst, inst[1]) /\ ref' = Append(ref, ref[1]) /\ lastOut' = <<>>
-Rejected(k) == UNCHANGED <<inst, ref>> /\ lastOut' = <<>>     \* empty / oversize batch, bad length: nothing changes
+         /\ inst' = Append(inst, inst[1]) /\ ref' = Append(ref, ref[1]) /\ lastOut' = <<>> /\ last' = <<"clone", 1, <<>>>>
+Rejected(k) == UNCHANGED <<inst, ref>> /\ lastOut' = <<>> /\ last' = <<"rejected", k, <<>>>>     \* empty / oversize batch, bad length: nothing changes
 
 Next == /\ steps < Depth /\ steps' = steps + 1
         /\ \/ \E k \in DOMAIN inst : Absorb(k) \/ Squeeze(k) \/ Reset(k) \/ Rejected(k)
            \/ Clone
 Spec == Init /\ [][Next]_vars
+View == <<inst, ref, lastOut, steps>>          \* `last` only labels transitions
 
 \* every squeeze output of every lane equals the independent single-lane sponge
 OutputsAgree == lastOut # <<>> => lastOut[1] = lastOut[2]
